@@ -46,11 +46,34 @@ pub fn parse_rec(bytes: &[u8]) -> Result<Parsed, Panic> {
     let budget = 16 * (bytes.len() as u64 / 4) + 256;
     rspirv::verif::set_step_budget(Some(budget));
     // the two byte-based entry points do the same job: alternate between them by content
-    let direct = bytes.len() % 8 >= 4 || bytes.iter().take(64).fold(0u8, |a, b| a ^ *b) & 1 == 1;
+    let mix = bytes.iter().take(64).fold(0u8, |a, b| a.rotate_left(1) ^ *b);
+    let direct = bytes.len() % 8 >= 4 || mix & 1 == 1;
+    // a byte slice may start at any address: place the input at every alignment modulo 4 (chosen by content)
+    let placed = Placed::new(bytes, (mix >> 1) as usize % 4);
+    let bytes = placed.get();
     let r = catch(|| if direct { rspirv::binary::Parser::new(bytes, &mut rec).parse() } else { rspirv::binary::parse_bytes(bytes, &mut rec) });
     let steps = rspirv::verif::steps();
     rspirv::verif::set_step_budget(None);
     r.map(|result| Parsed { result, rec, steps })
+}
+
+/// A copy of a byte string starting at an address congruent to `align` modulo 4.
+pub struct Placed {
+    buf: Vec<u8>,
+    start: usize,
+    len: usize,
+}
+impl Placed {
+    pub fn new(bytes: &[u8], align: usize) -> Placed {
+        let mut buf = vec![0xAAu8; bytes.len() + 8];
+        let base = buf.as_ptr() as usize;
+        let start = (4 + align - base % 4) % 4;
+        buf[start..start + bytes.len()].copy_from_slice(bytes);
+        Placed { buf, start, len: bytes.len() }
+    }
+    pub fn get(&self) -> &[u8] {
+        &self.buf[self.start..self.start + self.len]
+    }
 }
 
 pub fn parse_rec_words(words: &[u32]) -> Result<Parsed, Panic> {
